@@ -4,7 +4,7 @@ Spec: spec/sys/OMModel.tla (denotation: index chains via NdIndex, unit maps, aff
 fixpoint characterisation for feedback, TotalAll / Block / ScaledBlock) and spec/sys/OMJudge.tla.  Generated models
 (nested groups, promotion chains with src_indices, units, implicit components, feedback cycles, all sub-jacobian storage
 kinds, design-variable / response indices and scaling) are run under several configurations (mode x linear solver x
-assembled jacobian type x return format x driver scaling); TLC computes the exact expected values and judges every
+assembled jacobian type x return format x driver scaling x total coloring off/direct/substitution); TLC computes the exact expected values and judges every
 observed block."""
 from ..sysdriver import collect, run_tlc_judge
 from ..tlc import MachineryError
@@ -46,7 +46,7 @@ def judge(ctx, res, clause_prefix=''):
         for j, cv in enumerate(vv['cfgs']):
             ncfg += 1
             c = done[j]
-            key = (c['mode'], c['ln'][0], str(c['ln'][1]), c['fmt'], c['scaled'], r['meta']['cyclic'], r['meta']['chains'])
+            key = (c['mode'], c['ln'][0], str(c['ln'][1]), c['fmt'], c['scaled'], c.get('coloring'), r['meta']['cyclic'], r['meta']['chains'])
             ctx.note_nontrivial(str((r['seed'],) + key))
             if not cv['full']:
                 ctx.violation({'seed': r['seed'], 'cfg': c, 'model': r['md']}, r['case']['ref']['full'], r['case']['cfgs'][j]['full'],
